@@ -3,6 +3,7 @@ package packet
 import (
 	"bytes"
 	"compress/zlib"
+	"errors"
 	"fmt"
 	"io"
 	"sync"
@@ -177,6 +178,7 @@ func (p *Packet) unpackWithCompression(r io.Reader, threshold int) error {
 	}
 
 	var PacketID VarInt
+	compressed := DataLength != 0
 	if DataLength != 0 {
 		if int(DataLength) < threshold {
 			return fmt.Errorf("compressed packet error: size of %d is below threshold of %d", DataLength, threshold)
@@ -217,6 +219,22 @@ func (p *Packet) unpackWithCompression(r io.Reader, threshold int) error {
 	_, err = io.ReadFull(r, p.Data)
 	if err != nil {
 		return err
+	}
+	if compressed {
+		// the declared size must be the whole of what the stream inflates to
+		var extra [1]byte
+		for {
+			n, err := r.Read(extra[:])
+			if n > 0 {
+				return errors.New("compressed packet error: inflated data is longer than the declared size")
+			}
+			if err == io.EOF {
+				break
+			}
+			if err != nil {
+				return err
+			}
+		}
 	}
 	return nil
 }
